@@ -1,10 +1,12 @@
 (* C16  Rule-based warnings match their stated rules.
    Statements only; proofs are in Proofs/LintsProofs.v; the witness trees of Proofs/LintsWitness.v
    are dumps of the real parser.
-   lints      = the report of the checker models (Model/Lints.v), purge map keyed as in the code (exact spelling)
+   lints      = the report of the checker models (Model/Lints.v) of the code as it is: purge map keyed by the
+                upper-cased name (/repo ef936ba), a string literal is not `pass` (/repo 44578d5)
    lints_spec = one diagnostic per declaration satisfying its rule (R_ret, R_inh, R_purge, R_name)
-   WF16       = the guard, clause by clause in guard_profile; each clause that restricts the PROPERTY
-                (not just the shape of trees) is refuted below on a tree of the real parser. *)
+   WF16       = the guard, seven named clauses (guard_profile lists them plus the key clause, which holds
+                outright for the upper-cased key); each clause that restricts the PROPERTY (not just the shape
+                of trees) is refuted below on a tree of the real parser. *)
 From GoldV Require Import Base Tokens Lexer AstKinds Tree Lints LintsProofs LintsWitness.
 From Coq Require Import Permutation.
 
@@ -16,8 +18,8 @@ Proof. exact ret_verdict_spec. Qed.
 Theorem C16_rule_inh : forall m d, In d (spec_inh m) <-> R_inh m /\ d = inh_diag m.
 Proof. exact spec_inh_in. Qed.
 
-Theorem C16_rule_purge : forall keyf m d,
-  In d (spec_purge keyf m) <-> exists v, R_purge m v /\ d = purge_diag keyf v.
+Theorem C16_rule_purge : forall m d,
+  In d (spec_purge m) <-> exists v, R_purge m v /\ d = purge_diag v.
 Proof. exact spec_purge_in. Qed.
 
 Theorem C16_rule_name : forall anc d x,
@@ -32,47 +34,50 @@ Proof. intros f m. split; [apply ret_verdict_once | apply spec_inh_once]. Qed.
 (* ---- each once, and nothing else: the report is the multiset the rules generate ---- *)
 
 Theorem C16_lints_exact : forall file,
-  WF16 key_exact file -> Permutation (lints file) (lints_spec key_exact file).
-Proof. intros file H. apply (lints_exact key_exact exact_ci file H). Qed.
+  WF16 file -> Permutation (lints file) (lints_spec file).
+Proof. exact lints_exact_upper. Qed.
 
-(* the guard is the conjunction of the nine named clauses *)
+(* the guard of a checker with purge-map key function keyf is the conjunction of eight named clauses;
+   for today's key (upper-casing) the key clause holds outright and WF16 is the other seven *)
 Theorem C16_guard_clauses : forall keyf file,
-  WF16 keyf file <-> forallb (fun b => b) (guard_profile keyf file) = true.
-Proof. intros keyf file. unfold WF16. rewrite wf16b_profile. tauto. Qed.
+  WF16k keyf file <-> forallb (fun b => b) (guard_profile keyf file) = true.
+Proof. intros keyf file. unfold WF16k. rewrite wf16b_profile. tauto. Qed.
 
-(* R1 isolated: the guard of the code as it is = the case-insensitive guard + CaseConsistentPurge *)
-Theorem C16_guard_case : forall file,
-  WF16 key_exact file <-> WF16_ci file /\ CaseConsistentPurge file = true.
+Theorem C16_guard_today : forall file, WF16 file -> WF16k upper file.
+Proof. exact WF16_upper. Qed.
+
+(* the code before ef936ba (exact-spelling key): the same theorem needs the extra clause CaseConsistentPurge *)
+Theorem C16_old_guard_case : forall file,
+  WF16k key_exact file <-> WF16 file /\ CaseConsistentPurge file = true.
 Proof. exact WF16_exact_split. Qed.
 
-(* with the purge map keyed by the upper-cased name the rule needs no CaseConsistentPurge clause *)
-Theorem C16_lints_exact_upper : forall file,
-  WF16_ci file -> Permutation (lints_k upper file) (lints_spec upper file).
-Proof. exact lints_exact_upper. Qed.
+Theorem C16_old_lints_exact : forall file,
+  WF16k key_exact file -> Permutation (lints_k key_exact file) (lints_spec file).
+Proof. intros file H. apply (lints_exact key_exact exact_ci file H). Qed.
 
 (* ---- the verdict on a declaration depends only on that declaration and its own method ---- *)
 
 Theorem C16_lints_local : forall i r rg a p m q,
-  WF16 key_exact (Node KAstRoot i r rg a (p ++ m :: q)) ->
+  WF16k upper (Node KAstRoot i r rg a (p ++ m :: q)) ->
   Permutation (lints (Node KAstRoot i r rg a (p ++ m :: q)))
-              (lints (Node KAstRoot i r rg a (p ++ q)) ++ decl_verdicts key_exact m).
-Proof. intros. apply (lints_local key_exact exact_ci). assumption. Qed.
+              (lints (Node KAstRoot i r rg a (p ++ q)) ++ decl_verdicts m).
+Proof. intros. apply (lints_local upper upper_ci). assumption. Qed.
 
 Theorem C16_lints_agree : forall i1 r1 rg1 a1 p1 q1 i2 r2 rg2 a2 p2 q2 m,
-  WF16 key_exact (Node KAstRoot i1 r1 rg1 a1 (p1 ++ m :: q1)) ->
-  WF16 key_exact (Node KAstRoot i2 r2 rg2 a2 (p2 ++ m :: q2)) ->
+  WF16k upper (Node KAstRoot i1 r1 rg1 a1 (p1 ++ m :: q1)) ->
+  WF16k upper (Node KAstRoot i2 r2 rg2 a2 (p2 ++ m :: q2)) ->
   exists rest1 rest2,
-    Permutation (lints (Node KAstRoot i1 r1 rg1 a1 (p1 ++ m :: q1))) (rest1 ++ decl_verdicts key_exact m) /\
-    Permutation (lints (Node KAstRoot i2 r2 rg2 a2 (p2 ++ m :: q2))) (rest2 ++ decl_verdicts key_exact m) /\
+    Permutation (lints (Node KAstRoot i1 r1 rg1 a1 (p1 ++ m :: q1))) (rest1 ++ decl_verdicts m) /\
+    Permutation (lints (Node KAstRoot i2 r2 rg2 a2 (p2 ++ m :: q2))) (rest2 ++ decl_verdicts m) /\
     rest1 = lints (Node KAstRoot i1 r1 rg1 a1 (p1 ++ q1)) /\
     rest2 = lints (Node KAstRoot i2 r2 rg2 a2 (p2 ++ q2)).
-Proof. intros. apply (lints_agree key_exact exact_ci); assumption. Qed.
+Proof. intros. apply (lints_agree upper upper_ci); assumption. Qed.
 
 Theorem C16_lints_permute : forall i r rg a ch ch',
-  Permutation ch ch' -> WF16 key_exact (Node KAstRoot i r rg a ch) ->
-  WF16 key_exact (Node KAstRoot i r rg a ch') /\
+  Permutation ch ch' -> WF16k upper (Node KAstRoot i r rg a ch) ->
+  WF16k upper (Node KAstRoot i r rg a ch') /\
   Permutation (lints (Node KAstRoot i r rg a ch)) (lints (Node KAstRoot i r rg a ch')).
-Proof. intros. apply (lints_permute key_exact exact_ci); assumption. Qed.
+Proof. intros. apply (lints_permute upper upper_ci); assumption. Qed.
 
 (* ---- repeating the request repeats the same list: the report is a function of the tree ---- *)
 
@@ -83,15 +88,15 @@ Proof. exact lints_idempotent. Qed.
         near-miss is present satisfies the guard; its report has the nine real diagnostics ---- *)
 
 Example C16_nonvacuous_exact :
-  WF16 key_exact w_ok /\ WF16_ci w_ok /\
+  WF16 w_ok /\ WF16k upper w_ok /\
   map dcls (lints w_ok) = [RET; PURGE; NCONST; NTYPE; NFIELD; NFUNC; NPARAM; NLOCAL; INH] /\
-  lints w_ok = lints_spec key_exact w_ok /\ length (methods w_ok) = 6%nat.
+  lints w_ok = lints_spec w_ok /\ length (methods w_ok) = 6%nat.
 Proof. vm_compute. repeat split; reflexivity. Qed.
 
 Example C16_nonvacuous_local :
   exists i r rg a p m q,
-    w_ok = Node KAstRoot i r rg a (p ++ m :: q) /\ WF16 key_exact (Node KAstRoot i r rg a (p ++ m :: q)) /\
-    is_method m = true /\ map dcls (decl_verdicts key_exact m) = [PURGE; NLOCAL] /\
+    w_ok = Node KAstRoot i r rg a (p ++ m :: q) /\ WF16k upper (Node KAstRoot i r rg a (p ++ m :: q)) /\
+    is_method m = true /\ map dcls (decl_verdicts m) = [PURGE; NLOCAL] /\
     length (lints (Node KAstRoot i r rg a (p ++ q))) = 7%nat.
 Proof.
   unfold w_ok.
@@ -104,53 +109,59 @@ Example C16_nonvacuous_idempotent :
   requests 3 (fresh_doc w_ok) = [lints w_ok; lints w_ok; lints w_ok] /\ lints w_ok <> [].
 Proof. split; [vm_compute; reflexivity | vm_compute; discriminate]. Qed.
 
-(* ---- refutations of the unguarded statement, each on a tree of the real parser ---- *)
+(* ---- the two repaired defects, on their witnesses (trees of the real parser) ---- *)
 
 Ltac not_perm := let HP := fresh "HP" in intro HP; apply Permutation_length in HP; vm_compute in HP; discriminate HP.
 
-(* R1: `var v : tVarByteArray ... Purge(V)`: reported "not purged" (map keyed by exact spelling);
-   every other clause holds; with the upper-cased key the report is the rule's *)
-Theorem C16_R1_case_refuted :
-  exists file, WF16_ci file /\ CaseConsistentPurge file = false /\
-               ~ Permutation (lints file) (lints_spec key_exact file) /\
-               lints_k upper file = lints_spec upper file.
-Proof. exists w_case. split; [vm_compute; reflexivity|]. split; [vm_compute; reflexivity|]. split; [not_perm | vm_compute; reflexivity]. Qed.
+(* `var v : tVarByteArray ... Purge(V)`: the report is now the rule's (nothing); the old exact-spelling key
+   reported "not purged" although every clause but CaseConsistentPurge holds *)
+Example C16_fixed_R1_case :
+  WF16 w_case /\ lints w_case = lints_spec w_case /\ lints w_case = [].
+Proof. vm_compute. repeat split; reflexivity. Qed.
 
-(* R2: `proc Init  foo('pass')  endproc`: NOT flagged, a string literal spelled pass counts as `pass` *)
-Theorem C16_R2_pass_literal_refuted :
-  exists file, guard_profile key_exact file = [true; true; true; false; true; true; true; true; true] /\
-               lints file = [] /\ length (lints_spec key_exact file) = 1%nat.
-Proof. exists w_passlit. vm_compute. repeat split; reflexivity. Qed.
+Theorem C16_old_R1_case_refuted :
+  exists file, WF16 file /\ CaseConsistentPurge file = false /\
+               ~ Permutation (lints_k key_exact file) (lints_spec file).
+Proof. exists w_case. split; [vm_compute; reflexivity|]. split; [vm_compute; reflexivity | not_perm]. Qed.
 
-(* R3: `inherited other.Init` counts as `inherited self.Init`: only the right operand's name is looked at *)
+(* `proc Init  foo('pass')  endproc`: now flagged, as the rule says *)
+Example C16_fixed_R2_pass_literal :
+  WF16 w_passlit /\ lints w_passlit = lints_spec w_passlit /\ map dcls (lints w_passlit) = [INH].
+Proof. vm_compute. repeat split; reflexivity. Qed.
+
+(* ---- refutations of the unguarded statement (open findings), each on a tree of the real parser;
+        guard_profile upper = [RootNotFunction; QuietOutsideMethods; NoNestedMethods; InheritedSelfOnly;
+                               NoDupLocals; PurgeAfterDecl; PurgeKeyConsistent; PurgeArgsPlain] ---- *)
+
+(* R3 (D15): `inherited other.Init` counts as `inherited self.Init`: only the right operand's name is looked at *)
 Theorem C16_R3_inherited_other_refuted :
-  exists file, guard_profile key_exact file = [true; true; true; true; false; true; true; true; true] /\
-               lints file = [] /\ length (lints_spec key_exact file) = 1%nat.
+  exists file, guard_profile upper file = [true; true; true; false; true; true; true; true] /\
+               lints file = [] /\ length (lints_spec file) = 1%nat.
 Proof. exists w_inhother. vm_compute. repeat split; reflexivity. Qed.
 
-(* R4a: a local declared twice in one method is flagged once (the map entry is replaced) *)
+(* R4a (D16): a local declared twice in one method is flagged once (the map entry is replaced) *)
 Theorem C16_R4_duplicate_local_refuted :
-  exists file, guard_profile key_exact file = [true; true; true; true; true; false; true; true; true] /\
-               length (lints file) = 1%nat /\ length (lints_spec key_exact file) = 2%nat.
+  exists file, guard_profile upper file = [true; true; true; true; false; true; true; true] /\
+               length (lints file) = 1%nat /\ length (lints_spec file) = 2%nat.
 Proof. exists w_dup. vm_compute. repeat split; reflexivity. Qed.
 
-(* R4b: `Purge(v)` BEFORE `var v : tVarByteArray` in the same method does not count *)
+(* R4b (D17): `Purge(v)` BEFORE `var v : tVarByteArray` in the same method does not count *)
 Theorem C16_R4_purge_before_decl_refuted :
-  exists file, guard_profile key_exact file = [true; true; true; true; true; true; false; true; true] /\
-               length (lints file) = 1%nat /\ lints_spec key_exact file = [].
+  exists file, guard_profile upper file = [true; true; true; true; true; false; true; true] /\
+               length (lints file) = 1%nat /\ lints_spec file = [].
 Proof. exists w_early. vm_compute. repeat split; reflexivity. Qed.
 
-(* R4c: `Purge('v')`: a string literal (any node whose identifier is v) purges the variable v *)
+(* R4c (D18): `Purge('v')`: a string literal (any node whose identifier is v) purges the variable v *)
 Theorem C16_R4_purge_literal_arg_refuted :
-  exists file, guard_profile key_exact file = [true; true; true; true; true; true; true; true; false] /\
-               lints file = [] /\ length (lints_spec key_exact file) = 1%nat.
+  exists file, guard_profile upper file = [true; true; true; true; true; true; true; false] /\
+               lints file = [] /\ length (lints_spec file) = 1%nat.
 Proof. exists w_arglit. vm_compute. repeat split; reflexivity. Qed.
 
-(* R5: state leaks across declarations: `proc Init endproc` followed by the FIELD declaration
+(* R5 (D19): state leaks across declarations: `proc Init endproc` followed by the FIELD declaration
    `Fld : int4 absolute pass` is not flagged; the flag is reset only at the next method node *)
 Theorem C16_R5_leak_refuted :
-  exists file, guard_profile key_exact file = [true; false; true; true; true; true; true; true; true] /\
-               lints file = [] /\ length (lints_spec key_exact file) = 1%nat.
+  exists file, guard_profile upper file = [true; false; true; true; true; true; true; true] /\
+               lints file = [] /\ length (lints_spec file) = 1%nat.
 Proof. exists w_leak. vm_compute. repeat split; reflexivity. Qed.
 
 (* ... hence locality and permutation invariance fail without the clause QuietOutsideMethods:
@@ -160,7 +171,6 @@ Theorem C16_local_refuted :
     Permutation ch ch' /\
     ~ Permutation (lints (Node KAstRoot i r rg a ch)) (lints (Node KAstRoot i r rg a ch')).
 Proof.
-  unfold w_leak.
   pose (f := w_leak). unfold w_leak in f.
   match eval unfold f in f with Node KAstRoot ?i ?r ?rg ?a [?c; ?p; ?g] =>
     exists i, r, rg, a, [c; p; g], [c; g; p] end.
@@ -174,8 +184,9 @@ Print Assumptions C16_rule_name.
 Print Assumptions C16_rule_once.
 Print Assumptions C16_lints_exact.
 Print Assumptions C16_guard_clauses.
-Print Assumptions C16_guard_case.
-Print Assumptions C16_lints_exact_upper.
+Print Assumptions C16_guard_today.
+Print Assumptions C16_old_guard_case.
+Print Assumptions C16_old_lints_exact.
 Print Assumptions C16_lints_local.
 Print Assumptions C16_lints_agree.
 Print Assumptions C16_lints_permute.
@@ -183,8 +194,9 @@ Print Assumptions C16_lints_idempotent.
 Print Assumptions C16_nonvacuous_exact.
 Print Assumptions C16_nonvacuous_local.
 Print Assumptions C16_nonvacuous_idempotent.
-Print Assumptions C16_R1_case_refuted.
-Print Assumptions C16_R2_pass_literal_refuted.
+Print Assumptions C16_fixed_R1_case.
+Print Assumptions C16_old_R1_case_refuted.
+Print Assumptions C16_fixed_R2_pass_literal.
 Print Assumptions C16_R3_inherited_other_refuted.
 Print Assumptions C16_R4_duplicate_local_refuted.
 Print Assumptions C16_R4_purge_before_decl_refuted.
